@@ -1,1 +1,8 @@
-fn main() { println!("ok"); }
+fn main() {
+    let args: Vec<String> = std::env::args().collect();
+    let f = &args[1]; let big = args[2] == "be";
+    let b = vharness::rich::template_with_exception(f, big, 3);
+    let (n, dir, s) = vharness::rich::layout(&b);
+    println!("len={} count={} dir={}", b.len(), n, dir);
+    for x in s { println!("{:x?}", x); }
+}
